@@ -388,6 +388,77 @@ pub fn run(ctx: &mut Ctx, which: Which) {
                 ctx.violation("C02/stdout-bytes/resumed", &format!("stdout pieces of the resumed reads add up to {} bytes, the child wrote {}", got.len(), exp.len()), J::Null);
             }
         });
+        // the cfg(windows) thread-based communicator, executed here over real pipes (unlimited read)
+        if crate::win_comm::EXTRACTED {
+            let nw = ctx.n(200, 2000);
+            ctx.family("windows-variant", nw, |ctx, rng, _i| {
+                let cap = 65536u64;
+                let subset = rng.range(1, 7);
+                let (piped_in, out_piped, err_piped) = (subset & 1 != 0, subset & 2 != 0, subset & 4 != 0);
+                let input_len = if piped_in { comm::size_near(rng, cap) + if rng.chance(200) { 300_000 } else { 0 } } else { 0 };
+                let big = rng.chance(300);
+                let si = comm::gen_script(rng, piped_in, cap, input_len, big);
+                if si.family == "writes-until-eof-seen" || si.family == "closes-stdin-early-then-writes" {
+                    return; // (need the poll-based parent's EOF timing / EPIPE semantics; not meaningful for the thread-based variant here)
+                }
+                let seed = rng.next() >> 1;
+                let input = if piped_in { Some(comm::input_for(seed, input_len as usize)) } else { None };
+                let r = crate::props::c0304::win_exchange(ctx, seed, &si.script, input.clone(), out_piped, err_piped, &[None, None, None]);
+                let (reads, report) = match r {
+                    Some(x) => x,
+                    None => return,
+                };
+                ctx.count("win_variant_exchanges", 1);
+                let w = J::obj().set("script", J::s(&si.script)).set("family", J::s(si.family)).set("piped", J::s(&format!("in={} out={} err={}", piped_in, out_piped, err_piped))).set("child_report", J::arr_s(&report));
+                let first = match reads.first() {
+                    Some(f) => f,
+                    None => return,
+                };
+                if !first.0 {
+                    ctx.violation("C02/win-variant/error", "thread-based communicator: the exchange failed", w);
+                    return;
+                }
+                if first.1.is_some() != out_piped || first.2.is_some() != err_piped {
+                    ctx.violation("C02/win-variant/absent-stream", "thread-based communicator: a stream that was not piped is not reported as absent (or vice versa)", w);
+                    return;
+                }
+                let wrote = |s: u8| -> usize {
+                    let mut n = 0;
+                    for l in &report {
+                        let p: Vec<&str> = l.split(' ').collect();
+                        if p[0] == "w" && p.len() >= 3 && p[1] == s.to_string() {
+                            n = n.max(p[2].parse().unwrap_or(0));
+                        }
+                    }
+                    n
+                };
+                let done = report.iter().any(|l| l == "done" || l.starts_with("exit "));
+                if !done {
+                    return;
+                }
+                let got1: Vec<u8> = reads.iter().flat_map(|r| r.1.clone().unwrap_or_default()).collect();
+                let got2: Vec<u8> = reads.iter().flat_map(|r| r.2.clone().unwrap_or_default()).collect();
+                if out_piped && got1 != pat_vec(seed, 1, 0, wrote(1)) {
+                    ctx.violation("C02/win-variant/stdout-bytes", &format!("thread-based communicator: stdout has {} bytes, the child wrote {}", got1.len(), wrote(1)), w);
+                    return;
+                }
+                if err_piped && got2 != pat_vec(seed, 2, 0, wrote(2)) {
+                    ctx.violation("C02/win-variant/stderr-bytes", &format!("thread-based communicator: stderr has {} bytes, the child wrote {}", got2.len(), wrote(2)), w);
+                    return;
+                }
+                ctx.count("win_variant_bytes_verified", (got1.len() + got2.len()) as i64);
+                if let (Some(inp), true) = (&input, si.reads_all) {
+                    if let Some(l) = report.iter().rev().find(|l| l.starts_with("in ")) {
+                        let p: Vec<&str> = l.split(' ').collect();
+                        let (len, h): (u64, u64) = (p[1].parse().unwrap_or(0), p[2].parse().unwrap_or(0));
+                        if len != inp.len() as u64 || h != comm::hash(inp) || p[3] != "1" {
+                            ctx.violation("C02/win-variant/input", "thread-based communicator: the child did not receive the input exactly once followed by end-of-file", w);
+                        }
+                    }
+                }
+                ctx.distinct(&format!("win|{}|{}", si.family, subset));
+            });
+        }
         // text variants and special byte strings (NUL, invalid UTF-8, sequences cut at chunk boundaries): cat-like child echoes the input
         let nt = ctx.n(400, 3000);
         ctx.family("text-and-special-bytes", nt, |ctx, rng, _i| {
